@@ -296,6 +296,86 @@ def orderSeq (h : Heap) (p : Path) : Option (List Int) :=
     | some s => s.v.order.head?
     | none => none)
 
+/-- `Path.success(target)` = `ordermax[0] > target` (ValueError on the empty path) -/
+def success (ops : List Int) (target : Int) : Except Err Bool :=
+  match ordermax ops with
+  | .ok (v, _) => .ok (decide (v > target))
+  | .error e => .error e
+
+/-- everything the classification methods of a path report -/
+structure Cls where
+  omin : Except Err (Int × Nat)
+  omax : Except Err (Int × Nat)
+  chk : Except Err Check
+  suc : Except Err Bool
+  sp : Option (Except Err Side)      -- `none`: not asked (no interface given)
+  ep : Option (Except Err Side)
+
+/-- the classification as a PURE function of an order sequence: `ordermin`, `ordermax`,
+    `check_interfaces(intf)`, `success(target)`, `get_start_point(intf[0], intf[-1])`,
+    `get_end_point(intf[0], intf[-1])` -/
+def classifySeq (ops : List Int) (intf : List Int) (target : Int) : Cls :=
+  { omin := ordermin ops, omax := ordermax ops, chk := checkInterfaces ops intf, suc := success ops target,
+    sp := match intf.head?, intf.getLast? with
+      | some l, some r => some (startPoint ops l (some r))
+      | _, _ => none,
+    ep := match intf.head?, intf.getLast? with
+      | some l, some r => some (endPoint ops l (some r))
+      | _, _ => none }
+
+/-- `order[0]` of one frame as a 0/1-element sequence (empty: the frame has an empty `order` list) -/
+def frameSeq (h : Heap) (r : Option Nat) : List Int :=
+  match r with
+  | none => []
+  | some r =>
+    match h.look r with
+    | some s => (match s.v.order.head? with | some x => [x] | none => [])
+    | none => []
+
+/-- the classification of a path object in a heap.  The code has NO state besides the frames: every
+    method re-reads `[pp.order[0] for pp in self.phasepoints]` (resp. the first / last frame), so the
+    answer is `classifySeq` of the order values the frames hold NOW.  Only when some frame has an
+    empty `order` list do the methods differ (the list comprehension raises IndexError, start/end
+    look at one frame only). -/
+def Path.classify (h : Heap) (p : Path) (intf : List Int) (target : Int) : Cls :=
+  match orderSeq h p with
+  | some ops => classifySeq ops intf target
+  | none =>
+    { omin := .error .index, omax := .error .index, chk := .error .index, suc := .error .index,
+      sp := match intf.head?, intf.getLast? with
+        | some l, some r => some (startPoint (frameSeq h p.frames.head?) l (some r))
+        | _, _ => none,
+      ep := match intf.head?, intf.getLast? with
+        | some l, some r => some (endPoint (frameSeq h p.frames.getLast?) l (some r))
+        | _, _ => none }
+
+/-! canonical text of a classification (shared with the harness) -/
+
+def showErr : Err → String
+  | .assert => "err:assert" | .index => "err:index" | .value => "err:value" | .type => "err:type"
+
+def showSideStart : Option Side → String
+  | none => "None" | some .L => "L" | some .R => "R" | some .U => "?"
+
+def showSideEnd : Option Side → String
+  | none => "None" | some .L => "L" | some .R => "R" | some .U => "None"
+
+def showVI : Except Err (Int × Nat) → String
+  | .ok (v, i) => toString v ++ "," ++ toString i
+  | .error e => showErr e
+
+def showCheck : Except Err Check → String
+  | .ok c =>
+    let cr := if c.cross.isEmpty then "-" else String.ofList (c.cross.map (fun b => if b then '1' else '0'))
+    showSideStart c.start ++ "," ++ showSideEnd c.end_ ++ "," ++ (if c.middle then "M" else "*") ++ "," ++ cr
+  | .error e => showErr e
+
+def showCls (c : Cls) : String :=
+  "min=" ++ showVI c.omin ++ ";max=" ++ showVI c.omax ++ ";chk=" ++ showCheck c.chk ++ ";suc=" ++
+  (match c.suc with | .ok b => (if b then "True" else "False") | .error e => showErr e) ++ ";sp=" ++
+  (match c.sp with | none => "-" | some (.ok s) => showSideStart (some s) | some (.error e) => showErr e) ++ ";ep=" ++
+  (match c.ep with | none => "-" | some (.ok s) => showSideEnd (some s) | some (.error e) => showErr e)
+
 /-! ### The op-program machine replayed by the tie -/
 
 inductive Field
@@ -319,6 +399,10 @@ inductive Op
   | set (i k : Nat) (f : Field)                            -- setattr(paths[i].phasepoints[k], field, value)
   | setItem (i k : Nat) (x : Int)                          -- paths[i].phasepoints[k].order[0] = x
   | pset (i : Nat) (f : PField)                            -- setattr(paths[i], field, value)
+  | classify (i : Nat) (intf : List Int) (target : Int)    -- log every classification method of paths[i]
+  | repl (i k j l : Nat)                                   -- paths[i].phasepoints[k] = paths[j].phasepoints[l]
+  | ext (i j : Nat)                                        -- p.phasepoints = p.phasepoints[:-1] + q.phasepoints
+  | del (i k : Nat)                                        -- del paths[i].phasepoints[k]
 
 structure Machine where
   heap : Heap
@@ -418,6 +502,33 @@ def Machine.step (m : Machine) : Op → Machine
     match m.paths[i]? with
     | none => m.say "skip"
     | some p => { m with paths := m.paths.set i (assignPField p f) }.say "pset"
+  | .classify i intf target =>
+    match m.paths[i]? with
+    | none => m.say "skip"
+    | some p => m.say (showCls (Path.classify m.heap p intf target))
+  | .repl i k j l =>
+    match m.paths[i]?, m.paths[j]? with
+    | some p, some q =>
+      match q.frames[l]? with
+      | none => m.say "skip"
+      | some r =>
+        if k < p.frames.length then
+          { m with paths := m.paths.set i { p with frames := p.frames.set k r } }.say "repl"
+        else m.say "skip"
+    | _, _ => m.say "skip"
+  | .ext i j =>
+    -- the `tis.extender` idiom: the list object is replaced, no limit check, references shared
+    match m.paths[i]?, m.paths[j]? with
+    | some p, some q =>
+      { m with paths := m.paths.set i { p with frames := p.frames.dropLast ++ q.frames } }.say "ext"
+    | _, _ => m.say "skip"
+  | .del i k =>
+    match m.paths[i]? with
+    | none => m.say "skip"
+    | some p =>
+      if k < p.frames.length then
+        { m with paths := m.paths.set i { p with frames := p.frames.eraseIdx k } }.say "del"
+      else m.say "skip"
 
 def Machine.run (m : Machine) (ops : List Op) : Machine := ops.foldl Machine.step m
 
